@@ -18,7 +18,7 @@ RULE = (
 EXHAUSTIVE = {"quick": True, "thorough": True}
 SCOPE = {"quick": "L=4 over 2 keys (3 for sorted-like), full parameter grid", "thorough": "L=5"}
 ASSUMPTIONS = ["float summation is compared separately (open finding D15: CPython >= 3.12 uses compensated summation)"]
-KINDS = ["list", "iter", "agen", "aobj", "seq"]
+KINDS = ["list", "iter", "agen", "aobj", "seq", "aobj_nc"]
 KEYF = {"kind": "negkey"}
 KEYMOD = {"kind": "keymod", "m": 2, "r": 0}
 PAIR = {"kind": "pair"}
